@@ -87,9 +87,13 @@ impl St {
   { unimplemented!() }
 }
 
+#[derive(Copy, Clone, PartialEq, Eq)]
+pub enum BackendKind { Vec, MmapMut, Mmap, Anon }
 pub struct Memory {
   pub reserved: usize, pub cap: u32, pub data_offset: usize, pub unify: bool, pub ptr: *mut u8,
   pub header_ptr: Either<u32, Ghost<int>>,
+  pub kind: BackendKind,          // which variant `self.backend` is
+  pub file_offset: u64,           // MmapMut: `opts.offset` of the mapping
 }
 
 impl Memory {
@@ -122,6 +126,118 @@ impl Memory {
 //@after 1 /st\.write_bytes\(/
       proof { lemma_zero_written(old(st)@.bytes, data_offset as int, self.cap as int - data_offset as int);
               assert(Seq::new((self.cap as usize - data_offset) as nat, |i: int| 0u8) =~= zeros(self.cap as int - data_offset as int)); }
+//@@end
+}
+
+// ---- Memory::truncate (C18): the real bodies, proved against the very contract text the Arena::truncate wrapper assumes ----
+/// the replacement buffer being built (AlignedVec::new / anonymous map / re-mapped file); `copied` = how long a prefix of it
+/// is known to carry the old arena's bytes
+pub struct NewBuf { pub bytes: Ghost<Seq<u8>>, pub copied: Ghost<int> }
+impl NewBuf {
+  /// `AlignedVec::new::<H>(size, align)`: zeroed allocation (alloc_zeroed)
+  #[verifier::external_body]
+  pub fn zeroed(size: usize) -> (r: NewBuf) ensures r.bytes@ == zeros(size as int), r.copied@ == 0 { unimplemented!() }
+  /// `opts.with_capacity(cap).to_mmap_options().map_anon()`: fresh zero pages
+  #[verifier::external_body]
+  pub fn map_anon(cap: u32) -> (r: Result<NewBuf, IoError>) ensures r matches Ok(n) ==> n.bytes@ == zeros(cap as int) && n.copied@ == 0 { unimplemented!() }
+  #[verifier::external_body]
+  pub fn as_ptr(&self) -> (r: *mut u8) { unimplemented!() }
+  /// `ptr::copy_nonoverlapping(old_ptr, new_ptr, n)`
+  #[verifier::external_body]
+  pub fn copy_prefix_from(&mut self, st: &St, n: usize)
+    requires n as int <= st@.bytes.len(), n as int <= old(self).bytes@.len(), // [C18]
+    ensures
+      final(self).bytes@ == st@.bytes.subrange(0, n as int) + old(self).bytes@.subrange(n as int, old(self).bytes@.len() as int),
+      final(self).copied@ == n as int,
+  { unimplemented!() }
+  /// `new[..n].copy_from_slice(&old[..m])` (panics unless n == m)
+  pub fn copy_range_from(&mut self, st: &St, n: usize, m: usize)
+    requires n == m, n as int <= st@.bytes.len(), n as int <= old(self).bytes@.len(), // [C18]
+    ensures
+      final(self).bytes@ == st@.bytes.subrange(0, n as int) + old(self).bytes@.subrange(n as int, old(self).bytes@.len() as int),
+      final(self).copied@ == n as int,
+  { self.copy_prefix_from(st, n) }
+}
+impl St {
+  /// `*aligned_vec = new` / `*buf = new`: the new buffer replaces the old one.  In the unified layout the header, the sentinel
+  /// word and the reserved prefix live in the buffer below data_offset (== lo): they survive only if the copied prefix covers them
+  #[verifier::external_body]
+  pub fn install(&mut self, new: NewBuf)
+    requires new.copied@ >= old(self)@.lo, // [C18]
+    ensures
+      final(self).hdr == old(self).hdr, final(self).list == old(self).list,
+      final(self)@ == (SV { bytes: new.bytes@, ..old(self)@ }),
+  { unimplemented!() }
+}
+/// the file behind a MmapMut backend (MAP_SHARED: the file holds what the mapping held), OS model, trusted
+pub struct FileSt { pub content: Ghost<Seq<u8>>, pub mapped: Ghost<bool> }
+impl FileSt {
+  /// `let _ = Box::from_raw(*buf)`: drops (unmaps) the current mapping
+  #[verifier::external_body]
+  pub fn unmap(&mut self)
+    ensures !final(self).mapped@, final(self).content == old(self).content,
+  { unimplemented!() }
+  /// `file.metadata()?.len()`
+  #[verifier::external_body]
+  pub fn file_len(&self) -> (r: Result<u64, IoError>)
+    ensures r matches Ok(n) ==> n as int == self.content@.len(),
+  { unimplemented!() }
+  /// `file.set_len(n)?`: cuts the file or extends it with zeros
+  #[verifier::external_body]
+  pub fn set_len(&mut self, n: u64) -> (r: Result<(), IoError>)
+    ensures
+      final(self).mapped == old(self).mapped,
+      r.is_ok() ==> final(self).content@ == (if n as int <= old(self).content@.len() { old(self).content@.subrange(0, n as int) } else { old(self).content@ + zeros(n as int - old(self).content@.len()) }),
+  { unimplemented!() }
+  /// `mmap_mut(opts.with_capacity(size).to_mmap_options(), file)?`: maps [offset, offset+size) of the file; touching a page
+  /// of a mapping that lies beyond the end of the file faults, so the range must be inside the file
+  #[verifier::external_body]
+  pub fn map(&mut self, offset: u64, size: u32) -> (r: Result<NewBuf, IoError>)
+    requires !old(self).mapped@, offset as int + size as int <= old(self).content@.len(), // [C18]
+    ensures
+      final(self).content == old(self).content,
+      r matches Ok(m) ==> m.bytes@ == old(self).content@.subrange(offset as int, offset as int + size as int) && m.copied@ == size as int && final(self).mapped@,
+  { unimplemented!() }
+}
+
+impl Memory {
+//@@fn file=memory.rs scope="impl<R: RefCounter, PR: PathRefCounter, H: Header> Memory<R, PR, H> {" name=truncate nth=1 xlate=plain st=mut props=C18
+//@subst /match &mut self\.backend \{\s*MemoryBackend::Vec\(aligned_vec, _\) => \{/ => { {
+//@subst /let new = AlignedVec::new::<H>\((.+?), aligned_vec\.align\);/ => let mut new = NewBuf::zeroed(\1);
+//@subst /let ptr = new\.ptr\.as_ptr\(\);/ => let ptr = new.as_ptr();
+//@subst /ptr::copy_nonoverlapping\(aligned_vec\.ptr\.as_ptr\(\), ptr, (.+?)\);/ => new.copy_prefix_from(st, \1);
+//@subst /\*aligned_vec = new;/ => st.install(new);
+//@contract @memory_truncate
+      final(self).cap as int == size as int, // [C18]
+      final(self).reserved == old(self).reserved && final(self).data_offset == old(self).data_offset && final(self).unify == old(self).unify, // [C18]
+//@after 1 /st\.install\(new\);/
+      proof { assert(st@.bytes.subrange(0, allocated as int) =~= old(st)@.bytes.subrange(0, allocated as int)); }
+//@@end
+//@@fn file=memory.rs scope="impl<R: RefCounter, PR: PathRefCounter, H: Header> Memory<R, PR, H> {" name=truncate nth=2 rename=truncate__memmap xlate=plain st=mut props=C18
+//@subst /-> \(r: std::io::Result<\(\)>\)/ => -> (r: Result<(), IoError>)
+//@subst /st: &mut St, / => st: &mut St, os: &mut FileSt, 
+//@subst /match &mut self\.backend \{/ => match self.kind {
+//@subst /MemoryBackend::Vec\(aligned_vec, _\) => \{/ => BackendKind::Vec => {
+//@subst /let new = AlignedVec::new::<H>\((.+?), aligned_vec\.align\);/ => let mut new = NewBuf::zeroed(\1);
+//@subst /let ptr = new\.ptr\.as_ptr\(\);/ => let ptr = new.as_ptr();
+//@subst /ptr::copy_nonoverlapping\(aligned_vec\.ptr\.as_ptr\(\), ptr, (.+?)\);/ => new.copy_prefix_from(st, \1);
+//@subst /\*aligned_vec = new;/ => st.install(new);
+//@subst /MemoryBackend::MmapMut \{\s*buf, file, opts, \.\.\s*\} => unsafe \{/ => BackendKind::MmapMut => unsafe {
+//@subst /let _ = Box::from_raw\(\*buf\);/ => os.unmap();
+//@subst /file\.metadata\(\)\?\.len\(\)/ => os.file_len()?
+//@subst /file\.set_len\(/ => os.set_len(
+//@subst /let mut mmap = mmap_mut\(opts\.with_capacity\((.+?)\)\.to_mmap_options\(\), file\)\?;/ => let mmap = os.map(opts.offset, \1)?;
+//@subst /let ptr = mmap\.as_mut_ptr\(\);\s*\*buf = Box::into_raw\(Box::new\(mmap\)\);/ => let ptr = mmap.as_ptr(); st.install(mmap);
+//@subst /opts\.offset/ => self.file_offset
+//@subst /MemoryBackend::Mmap \{ \.\. \} => return Ok\(\(\)\),/ => BackendKind::Mmap => { return Ok(()); }
+//@subst /MemoryBackend::AnonymousMmap \{ buf, opts \} => \{/ => BackendKind::Anon => {
+//@subst /opts\s*\.with_capacity\((.+?)\)\s*\.to_mmap_options\(\)\s*\.map_anon\(\)\s*\.map\(\|mut new\| \{\s*new\[\.\.(.+?)\]\.copy_from_slice\(&buf\[\.\.(.+?)\]\);\s*self\.ptr = new\.as_mut_ptr\(\);\s*\*buf = new;\s*\}\)\?;/ => let mut new = NewBuf::map_anon(\1)?; new.copy_range_from(st, \2, \3); self.ptr = new.as_ptr(); st.install(new);
+//@contract @memory_truncate_io
+      r.is_ok() ==> final(self).cap as int == size as int, // [C18]
+      final(self).reserved == old(self).reserved && final(self).data_offset == old(self).data_offset && final(self).unify == old(self).unify, // [C18]
+  requires+ old(self).kind is Mmap ==> !old(st)@.writable, // a read-only mapping is never writable
+  requires+ old(self).file_offset <= u64::MAX - 0x1_0000_0000,
+  requires+ old(self).kind is MmapMut ==> old(os).mapped@ && old(self).file_offset as int + old(st)@.bytes.len() <= old(os).content@.len() && old(os).content@.subrange(old(self).file_offset as int, old(self).file_offset as int + old(st)@.bytes.len()) == old(st)@.bytes, // the shared mapping and the file agree
 //@@end
 }
 
